@@ -70,7 +70,7 @@ def rand_script(rng, kind, nmax=40):
 def derive(ops, impl):
     """What the property predicate needs to know about a case, read off the op stream itself
     (so that it also works on shrunk streams)."""
-    d = {'fmt': None, 'filter': '-', 'bpb': 10240, 'bil': -1, 'kind': 'all', 'mem': None, 'need': None, 'total': 0,
+    d = {'sink': None, 'fmt': None, 'filter': '-', 'bpb': 10240, 'bil': -1, 'kind': 'all', 'mem': None, 'need': None, 'total': 0,
          'ended': False, 'acc': None}
     opened = False
     ustar_need, simple = 1024, True
@@ -89,6 +89,14 @@ def derive(ops, impl):
         elif w[0] == 'script':
             if any(x != 'A' for x in w[1:]):
                 d['kind'] = 'short' if all(x[0] in 'aA' and x != 'a0' for x in w[1:]) else 'fail'
+        elif w[0] == 'sys':
+            if any(x != 'A' for x in w[1:]):
+                d['kind'] = 'short' if all(x[0] in 'aAi' and x != 'a0' for x in w[1:]) else 'fail'
+        elif w[0] in ('openfd', 'openfile', 'openFILE'):
+            opened = o.startswith('open ok')
+            d['sink'] = w[0]
+            if w[0] != 'openFILE' and d['bil'] < 0:
+                d['bil'] = 1
         elif w[0] == 'opener' and w[1] != '0':
             d['kind'] = 'fail'
         elif w[0] in ('open', 'openmem'):
@@ -124,7 +132,7 @@ class Cw(Engine):
     keep_prefix = 1
     timeout = 1500
 
-    def __init__(self, nbase=260, monitor=True, mem=True, c11=False):
+    def __init__(self, nbase=220, monitor=True, mem=True, c11=False):
         self.nbase, self.monitor, self.mem, self.c11 = nbase, monitor, mem, c11
 
     # -- generators -------------------------------------------------------
@@ -151,6 +159,43 @@ class Cw(Engine):
                 off += k
             ops += self.ending(rng)
             yield Case(f'raw{i}', ops, {'fmt': 'raw', 'bpb': bpb, 'bil': bil, 'kind': kind, 'filter': '-', 'total': total})
+        # 1b. last-block granularity that does not divide the block size, tail beyond the last whole multiple
+        pairs = [(1000, 512), (10240, 3000), (10, 4), (512, 100), (7, 2), (7, 5), (513, 512), (10240, 512), (100, 33), (65537, 10240)]
+        for j, (bpb, bil) in enumerate(pairs if tier == 'quick' else pairs + [(rng.randrange(2, 3000), rng.randrange(2, 3000)) for _ in range(300)]):
+            whole = bpb // bil * bil
+            tails = sorted(set([1, bil - 1 if bil > 1 else 1, bil, min(bil + 1, bpb - 1), max(1, whole - 1), whole if 0 < whole < bpb else 1, min(whole + 1, bpb - 1), bpb - 1,
+                                rng.randrange(1, bpb)]))
+            for r in tails:
+                if not 0 < r < bpb:
+                    continue
+                total = rng.choice([0, 1, 2]) * bpb + r
+                if total > 140000:
+                    total = r
+                ops = ['new', 'fmt raw', f'bpb {bpb}', f'bil {bil}', 'script', 'open', plain_header()]
+                for k in chunk(rng, total, rng.choice(['whole', 'rand', 'rand'])):
+                    ops.append(f'fill {k} {rng.randrange(256)}')
+                ops += ['close', 'free']
+                yield Case(f'lastblk-{bpb}-{bil}-{r}', ops, {'fmt': 'raw', 'bpb': bpb, 'bil': bil, 'kind': 'all', 'filter': '-', 'total': total})
+        # 1c. the library's own sinks (open_fd / open_filename / open_FILE) over a scripted write(2) / fwrite:
+        #     short counts, EINTR, errors, zero returns
+        ns = 90 if tier == 'quick' else 800
+        for i in range(ns):
+            sink = ['openfd', 'openfile', 'openFILE'][i % 3]
+            fmt = rng.choice(['raw', 'raw', 'ustar'])
+            bpb = rng.choice([0, 7, 512, 10240]); bil = rng.choice([None, None, -1, 0, 1, 512, 3])
+            kind = rng.choice(['short', 'short', 'short', 'fail', 'all'])
+            sc = []
+            if kind != 'all':
+                for _ in range(rng.choice([2, 5, 12, 40])):
+                    sc.append(rng.choice(['a1', 'a2', 'a3', 'a7', 'a100', 'a511', 'a512', 'a513', 'a5000', 'A', 'i', 'i']))
+                if kind == 'fail':
+                    k = rng.randrange(len(sc) + 1); sc = sc[:k] + [rng.choice(['e', 'z', 'e'])]
+            total = rng.choice([1, 5, 100, 511, 513, 1300, 3000, 10241, 25000])
+            ops = ['new', f'fmt {fmt}', f'bpb {bpb}'] + ([f'bil {bil}'] if bil is not None else []) + ['sys ' + ' '.join(sc), sink, plain_header(size=total)]
+            for k in chunk(rng, total, rng.choice(['whole', 'rand', 'rand'])):
+                ops.append(f'fill {k} {rng.randrange(256)}')
+            ops += self.ending(rng)
+            yield Case(f'{sink}{i}', ops, {'fmt': fmt, 'bpb': bpb, 'bil': bil, 'kind': 'sink-' + kind, 'filter': '-', 'sink': sink})
         # 2. ustar: header / data / finish_entry / close
         for i in range(n):
             bpb, bil = rng.choice(BPBS), rng.choice(BILS)
@@ -220,8 +265,16 @@ class Cw(Engine):
                            plain_header('dir/g.o', 70000), 'fill 70000 2', 'close', 'free']
                     yield Case(f'mon-{fmt}-{k}', ops, {'fmt': fmt, 'bpb': 512, 'bil': -1, 'kind': 'monitor', 'filter': '-'})
             for flt in FILTERS_MONITOR:
-                for k in range(min(kmax, 4)):
+                # incompressible data so that the filter hands blocks down all along the entry; the failing
+                # invocation index spread over the whole output
+                idx = sorted(set([0, 1, 2, 3] + [rng.randrange(4, 500) for _ in range(4 if tier == 'quick' else 40)] + [127, 128, 129, 255, 256]))
+                for k in idx:
                     sc = ['A'] * k + ['e']
+                    ops = ['new', 'fmt ustar', f'filter {flt}', 'bpb 512', 'script ' + ' '.join(sc), 'open', plain_header('f', 300000), 'rand 200000 ' + str(rng.randrange(1000)), 'rand 100000 7', 'finish', 'close', 'free']
+                    yield Case(f'mon-{flt}-r{k}', ops, {'fmt': 'ustar', 'bpb': 512, 'bil': -1, 'kind': 'monitor', 'filter': flt})
+                # compressible data: (nearly) all output is produced while the filter is being closed
+                for k in range(min(kmax, 5)):
+                    sc = ['A'] * k + [rng.choice(['e', 'z'])]
                     ops = ['new', 'fmt ustar', f'filter {flt}', 'bpb 512', 'script ' + ' '.join(sc), 'open', plain_header('f', 300000), 'fill 300000 1', 'finish', 'close', 'free']
                     yield Case(f'mon-{flt}-{k}', ops, {'fmt': 'ustar', 'bpb': 512, 'bil': -1, 'kind': 'monitor', 'filter': flt})
 
@@ -239,6 +292,7 @@ class Cw(Engine):
     def oracle(self, case, impl):
         sizes = []
         anybad = False
+        seen_fatal = False
         for op, o in zip(case.ops, impl):
             if 'VIOLATED' in o:
                 return o
@@ -246,6 +300,8 @@ class Cw(Engine):
                 return f'memory leaked after close/free (fmt={case.meta.get("fmt")} filter={case.meta.get("filter")})'
             if 'stream=BAD' in o:
                 return 'the bytes accepted by the write callback are not a prefix of (data written ++ zero padding): ' + op[:60]
+            if 'file=BAD' in o:
+                return 'the file behind the fd/filename/FILE sink does not hold the bytes the system call accepted'
             if 'TAIL-CLOBBERED' in o:
                 return 'memory sink: bytes stored at or beyond *used: ' + op
             m = re.match(r'(\w+) (\S+) ev=(\d+) sz=(\S+) h=\d+ bad=(\d)', o)
@@ -254,8 +310,12 @@ class Cw(Engine):
             st = m.group(2)
             if m.group(5) == '1':
                 anybad = True
-                if st not in ('fatal', 'failed'):
+                # archive_write_free on a handle that is already FATAL closes the filters but deliberately drops
+                # the status of that close; the failure that made the handle FATAL was reported by its own call
+                if st not in ('fatal', 'failed') and not (m.group(1) == 'free' and seen_fatal):
                     return f'a write callback invocation failed during "{op.split()[0]}" but the call returned {st}'
+            if st == 'fatal':
+                seen_fatal = True
             if m.group(4) != '-':
                 for part in m.group(4).split(','):
                     s, c = part.split('*')
@@ -290,12 +350,16 @@ class Cw(Engine):
 
     def stats(self, cases, impl):
         st = {'fmt': {}, 'kind': {}, 'filter': {}, 'bpb': {}, 'bil': {}, 'status': {}, 'bad_calls': 0, 'callback_invocations': 0,
-              'fatal_after_bad': 0, 'mem_cases': 0}
+              'fatal_after_bad': 0, 'mem_cases': 0, 'sink_syscalls': 0, 'sink_short_writes': 0, 'sink_eintr': 0}
         for c, im in zip(cases, impl):
             for k in ('fmt', 'kind', 'filter', 'bpb', 'bil'):
                 v = str(c.meta.get(k)); st[k][v] = st[k].get(v, 0) + 1
             if c.meta.get('kind') == 'mem':
                 st['mem_cases'] += 1
+            last = [o for o in im if ' sys=' in o]
+            if last:
+                m = re.search(r' sys=(\d+) short=(\d+) eintr=(\d+)', last[-1])
+                st['sink_syscalls'] += int(m.group(1)); st['sink_short_writes'] += int(m.group(2)); st['sink_eintr'] += int(m.group(3))
             for o in im:
                 m = re.match(r'(\w+) (\S+) ev=(\d+) .* bad=(\d)', o)
                 if m:
@@ -314,11 +378,40 @@ class Cw(Engine):
 
 ALL_FORMATS = ['ustar', 'pax', 'paxr', 'gnutar', 'v7tar', 'odc', 'newc', 'bin', 'pwb', 'zip', '7zip', 'xar', 'iso9660',
                'arbsd', 'arsvr4', 'mtree', 'mtree-classic', 'warc', 'shar', 'shardump', 'raw']
-DET_FILTERS = ['-', 'gzip', 'bzip2', 'xz', 'zstd', 'lz4', 'compress', 'b64', 'uu', 'lzip']
-DET_OPTS = {'zip': ['zip:compression=store', 'zip:compression=deflate', 'zip:zip64'], '7zip': ['7zip:compression=lzma1', '7zip:compression=deflate', '7zip:compression=store'],
-            'iso9660': ['iso9660:joliet', 'iso9660:rockridge', 'iso9660:zisofs'], 'mtree': ['mtree:all', 'mtree:sha256'],
-            'xar': ['xar:checksum=sha1', 'xar:compression=gzip', 'xar:toc-checksum=md5'], 'pax': ['pax:xattrheader=ALL'], 'newc': [], 'gnutar': []}
+DET_FILTERS = ['-', 'gzip', 'bzip2', 'xz', 'lzma', 'lzip', 'zstd', 'lz4', 'compress', 'b64', 'uu']
+LEVELS = [str(i) for i in range(10)]
+# every option string each writer accepts (value sets enumerated where they are small)
+FORMAT_OPTS = {
+    'zip': [f'zip:compression={c}' for c in ('store', 'deflate', 'bzip2', 'lzma', 'xz', 'zstd')] + [f'zip:compression-level={l}' for l in LEVELS] +
+           [f'zip:encryption={e}' for e in ('zipcrypt', 'traditional', 'aes128', 'aes256')] + ['zip:zip64', 'zip:!zip64', 'zip:experimental', 'zip:fakecrc32',
+            'zip:encryption=aes256,zip:compression=store', 'zip:encryption=aes128,zip:compression=deflate', 'zip:encryption=zipcrypt,zip:compression=store'],
+    '7zip': [f'7zip:compression={c}' for c in ('store', 'copy', 'deflate', 'bzip2', 'lzma1', 'lzma2', 'ppmd')] + [f'7zip:compression-level={l}' for l in ('0', '1', '5', '9')],
+    'xar': [f'xar:checksum={c}' for c in ('none', 'md5', 'sha1', 'sha256', 'sha512')] + [f'xar:toc-checksum={c}' for c in ('none', 'md5', 'sha1', 'sha256')] +
+           [f'xar:compression={c}' for c in ('none', 'gzip', 'bzip2', 'lzma', 'xz')] + [f'xar:compression-level={l}' for l in ('1', '9')],
+    'iso9660': ['iso9660:joliet', 'iso9660:!joliet', 'iso9660:joliet=long', 'iso9660:rockridge', 'iso9660:!rockridge', 'iso9660:rockridge=useful',
+                'iso9660:iso-level=1', 'iso9660:iso-level=2', 'iso9660:iso-level=3', 'iso9660:iso-level=4', 'iso9660:zisofs', 'iso9660:!pad', 'iso9660:pad',
+                'iso9660:allow-vernum', 'iso9660:!allow-vernum', 'iso9660:volume-id=VOL', 'iso9660:publisher=pub', 'iso9660:application-id=app',
+                'iso9660:limit-depth', 'iso9660:!limit-depth', 'iso9660:compression-level=1,iso9660:zisofs'],
+    'mtree': ['mtree:all', 'mtree:!all', 'mtree:use-set', 'mtree:indent', 'mtree:dironly', 'mtree:md5', 'mtree:sha1', 'mtree:sha256', 'mtree:sha384', 'mtree:sha512',
+              'mtree:rmd160', 'mtree:cksum', 'mtree:!time', 'mtree:all,mtree:use-set,mtree:indent'],
+    'pax': ['pax:xattrheader=ALL', 'pax:xattrheader=LIBARCHIVE', 'pax:xattrheader=SCHILY'],
+    'warc': ['warc:omit-warcinfo'],
+}
+FILTER_OPTS = {
+    'gzip': [f'gzip:compression-level={l}' for l in LEVELS] + ['gzip:!timestamp'],
+    'bzip2': [f'bzip2:compression-level={l}' for l in LEVELS],
+    'xz': [f'xz:compression-level={l}' for l in LEVELS],
+    'lzma': [f'lzma:compression-level={l}' for l in ('0', '1', '5', '6', '9')],
+    'lzip': [f'lzip:compression-level={l}' for l in ('0', '1', '5', '6', '9')],
+    'zstd': [f'zstd:compression-level={l}' for l in ('1', '3', '9', '19', '-5')] + ['zstd:long=27', 'zstd:frame-per-file', 'zstd:min-frame-in=1024', 'zstd:max-frame-out=4096'],
+    'lz4': [f'lz4:compression-level={l}' for l in ('1', '2', '3', '9')] + ['lz4:stream-checksum', 'lz4:!stream-checksum', 'lz4:block-checksum', 'lz4:!block-checksum',
+            'lz4:block-size=4', 'lz4:block-size=5', 'lz4:block-size=7', 'lz4:block-dependence', 'lz4:!block-dependence'],
+    'b64': ['b64encode:mode=755', 'b64encode:name=some.name'],
+    'uu': ['uuencode:mode=600', 'uuencode:name=x'],
+    'compress': [],
+}
 POISONS = [(0x11, 0x22), (0xEE, 0xDD)]
+SHAPES = ['mixed', 'tiny', 'longnames', 'special']
 
 
 class Det(Cw):
@@ -326,6 +419,15 @@ class Det(Cw):
 
     def __init__(self, nbase=40):
         Cw.__init__(self, nbase=nbase, monitor=False, mem=False)
+
+    def stats(self, cases, impl):
+        st = Cw.stats(self, cases, impl)
+        st['opts'] = {}; st['shape'] = {}
+        for c in cases:
+            for o in (c.meta.get('opts') or '-').split(','):
+                k = o.split('=')[0]; st['opts'][k] = st['opts'].get(k, 0) + 1
+            s = str(c.meta.get('shape')); st['shape'][s] = st['shape'].get(s, 0) + 1
+        return st
 
     def build(self):
         # eng_det.c is a one-line #include of eng_cw.c: rebuild when that changes
@@ -336,30 +438,81 @@ class Det(Cw):
             os.utime(a)
         return Engine.build(self)
 
-    def scenario(self, rng, fmt, flt, opts, bpb, bil):
-        ops = ['new', f'fmt {fmt}'] + ([f'filter {flt}'] if flt != '-' else []) + [f'opt {o}' for o in opts] + [f'bpb {bpb}', f'bil {bil}', 'script', 'open']
+    def entries(self, rng, fmt, shape):
+        """Entry sequences: ordinary, tiny/empty bodies, names that need extension headers or string
+        tables, special files — each format gets what it can represent, the rest is refused."""
         if fmt == 'raw':
-            ops += [plain_header('only', 0), f'fill {rng.choice([1, 700, 5000])} {rng.randrange(256)}']
-        elif fmt in ('arbsd', 'arsvr4'):
-            ops += [plain_header('a.o', 5), 'fill 5 1', plain_header('longer_name_than_sixteen.o', 3), 'fill 3 7', plain_header('b.o', 0)]
-        else:
-            ops += [header(rng, 'dir', 0, 'dir'), plain_header('dir/file.txt', 3001), 'fill 3001 7', 'finish']
-            if fmt != 'warc':
-                ops += [header(rng, 'lnk', 0, 'dir/link'), header(rng, 'hard', 0, 'dir/hard')]
-            ops += [plain_header('dir/' + 'n' * rng.choice([5, 90, 120]), 513), f'fill 500 {rng.randrange(256)}', 'fill 13 1', plain_header('dir/empty', 0)]
+            return [plain_header('only', 0), f'fill {rng.choice([0, 1, 19, 700, 5000]) if shape != "tiny" else rng.choice([1, 5, 19])} {rng.randrange(256)}']
+        if fmt in ('arbsd', 'arsvr4'):
+            long1, long2 = 'longer_name_than_sixteen.o', 'another_quite_long_member_name.o'
+            ops = []
+            if fmt == 'arsvr4' and shape != 'tiny':
+                # GNU/SVR4: the symbol table "/" and the string table "//" come first
+                tab = (long1 + '/\n' + long2 + '/\n').encode()
+                ops += [plain_header('/', 4), 'data 00000000', plain_header('//', len(tab)), 'data ' + hexs(tab)]
+            ops += [plain_header('a.o', 5), 'fill 5 1', plain_header('exactly15chars.o', 1), 'fill 1 2']
+            if shape != 'tiny':
+                ops += [plain_header(long1, 3), 'fill 3 7', plain_header(long2, 0)]
+            ops += [plain_header('b.o', 0), plain_header('odd.o', 7), 'fill 7 9']
+            return ops
+        if shape == 'tiny':
+            ops = []
+            for n, sz in enumerate([0, 1, 5, 19, 20, 21]):
+                ops += [plain_header(f't{n}', sz)] + ([f'fill {sz} {rng.randrange(256)}'] if sz else []) + (['finish'] if n % 2 else [])
+            return ops
+        if shape == 'longnames':
+            ops = []
+            for ln in (16, 99, 100, 101, 155, 156, 255, 300):
+                name = ('d' * 40 + '/') * (ln // 60) + 'n' * (ln % 60 + 1)
+                ops += [plain_header(name, 3), 'fill 3 1']
+            ops += [header(rng, 'lnk', 0, 'l' * 120), header(rng, 'hard', 0, 'h' * 101)]
+            return ops
+        if shape == 'special':
+            return [header(rng, 'dir', 0, 'dev'), header(rng, 'chr', 0, 'dev/c'), header(rng, 'blk', 0, 'dev/b'), header(rng, 'fifo', 0, 'dev/f'),
+                    header(rng, 'sock', 0, 'dev/s'), header(rng, 'lnk', 0, 'dev/l'), plain_header('dev/reg', 10), 'fill 10 3']
+        ops = [header(rng, 'dir', 0, 'dir'), plain_header('dir/file.txt', 3001), 'fill 3001 7', 'finish']
+        if fmt != 'warc':
+            ops += [header(rng, 'lnk', 0, 'dir/link'), header(rng, 'hard', 0, 'dir/hard')]
+        ops += [plain_header('dir/' + 'n' * rng.choice([5, 90, 120]), 513), f'fill 500 {rng.randrange(256)}', 'fill 13 1', plain_header('dir/empty', 0)]
+        return ops
+
+    def scenario(self, rng, fmt, flt, opts, bpb, bil, shape):
+        ops = ['new', f'fmt {fmt}'] + ([f'filter {flt}'] if flt != '-' else []) + [f'opt {o}' for o in opts]
+        if any('encryption' in o for o in opts):
+            ops.append('pass ' + hexs(b'secret'))
+        ops += [f'bpb {bpb}', f'bil {bil}', 'script', 'open'] + self.entries(rng, fmt, shape)
         return ops + ['close', 'free']
 
     def gen0(self, rng, tier):
-        n = 1 if tier == 'quick' else 12
-        for fmt in ALL_FORMATS:
-            for r in range(n):
-                for flt in (['-'] if r or fmt not in ('ustar', 'newc', 'zip', 'raw') else DET_FILTERS):
-                    pool = DET_OPTS.get(fmt.split('-')[0], [])
-                    opts = [o for o in pool if rng.random() < 0.4] if r else []
-                    bpb, bil = rng.choice([512, 10240, 0, 7] if fmt in ('raw', 'ustar') else [512, 10240, 0]), rng.choice([-1, 0, 1, 512])
-                    yield Case(f'det-{fmt}-{flt}-{r}', self.scenario(rng, fmt, flt, opts, bpb, bil),
-                               {'fmt': fmt, 'filter': flt, 'bpb': bpb, 'bil': bil, 'kind': 'det'})
-        # the modelled layer with a short-writing callback: partial last blocks, buffer reuse
+        reps = 1 if tier == 'quick' else 4
+        def case(label, fmt, flt, opts, shape):
+            bpb, bil = rng.choice([512, 10240, 0, 7] if fmt in ('raw', 'ustar') else [512, 10240, 0]), rng.choice([-1, 0, 1, 512])
+            return Case(label, self.scenario(rng, fmt, flt, opts, bpb, bil, shape),
+                        {'fmt': fmt, 'filter': flt, 'bpb': bpb, 'bil': bil, 'kind': 'det', 'opts': ','.join(opts), 'shape': shape})
+        for r in range(reps):
+            # A. every format x every entry shape (no options, no filter)
+            for fmt in ALL_FORMATS:
+                for shape in SHAPES:
+                    yield case(f'det-{fmt}-{shape}-{r}', fmt, '-', [], shape)
+            # B. every format x every option string it accepts; shapes alternate so that every option
+            #    meets ordinary, tiny and long-name entries over the seeds (encryption: tiny and mixed always)
+            for fmt, pool in FORMAT_OPTS.items():
+                for n, o in enumerate(pool):
+                    shapes = ['tiny', 'mixed'] if 'encryption' in o else [SHAPES[(n + r + rng.randrange(4)) % 4]]
+                    for shape in shapes:
+                        yield case(f'det-{fmt}-{o}-{shape}-{r}', fmt, '-', [o], shape)
+            # C. every filter x every option value, over a rotating container format; plus every filter bare
+            for flt in DET_FILTERS[1:]:
+                for n, o in enumerate([None] + FILTER_OPTS.get(flt, [])):
+                    fmt = ['ustar', 'newc', 'raw', 'zip', 'pax'][(n + r) % 5]
+                    yield case(f'det-{fmt}-{flt}-{o}-{r}', fmt, flt, [o] if o else [], rng.choice(['mixed', 'tiny']))
+            # D. two options at once
+            for _ in range(10 if tier == 'quick' else 60):
+                fmt = rng.choice(list(FORMAT_OPTS))
+                flt = rng.choice(DET_FILTERS)
+                opts = rng.sample(FORMAT_OPTS[fmt], min(2, len(FORMAT_OPTS[fmt]))) + ([rng.choice(FILTER_OPTS[flt])] if FILTER_OPTS.get(flt) else [])
+                yield case(f'det-combo-{fmt}-{flt}', fmt, flt, opts, rng.choice(SHAPES))
+        # E. the modelled layer with a short-writing callback: partial last blocks, buffer reuse
         for i in range(self.nbase if tier == 'quick' else self.nbase * 30):
             bpb, bil = rng.choice([3, 7, 512, 10240]), rng.choice(BILS + [3])
             ops = ['new', f'fmt {rng.choice(["raw", "ustar"])}', f'bpb {bpb}', f'bil {bil}', 'script ' + ' '.join(rand_script(rng, 'short', 10)), 'open',
